@@ -39,6 +39,7 @@ def toIVOp (s : St) : Op → Option (Vecs.Op Nat)
   | .push => some (.push s.mem.next)
   | .tryPush => some (.tryPush s.mem.next)
   | .pop => some .pop
+  | .popIf b => some (.popIf b)
   | .insert i => some (.insert i s.mem.next)
   | .tryInsert i => some (.tryInsert i s.mem.next)
   | .remove i => some (.remove i)
@@ -58,7 +59,7 @@ def toIVOp (s : St) : Op → Option (Vecs.Op Nat)
   | .drain a b sc f => some (.drain (.incl a) (.excl b) (sc.map sideOf) (finOf f))
   | .intoIter sc _ => some (.intoIter (sc.map sideOf))
   | .roundtrip => some (.from .other 0 (absL s))
-  | .reserve _ | .shrinkFit | .dropVec => none
+  | .reserve _ | .shrinkFit | .dropVec | .fromIter _ _ => none
 
 theorem rangeMono_valid {a b len : Nat} (h : a ≤ b ∧ b ≤ len) :
     Vecs.rangeMono (.incl a) (.excl b) len = .ok (a, b) := by
@@ -118,6 +119,26 @@ theorem iStep_refines {s : St} {L : List Nat} (op : Op) (vop : Vecs.Op Nat)
     refine ⟨?_, _, p.view, p.cap, (by rw [p.hdr]; exact hth), (by rw [p.hdr]; exact hal), rfl⟩
     simp only [HipVerif.Spec.Vec.pop]
     cases L.getLast? <;> simp [retMatch]
+  case popIf b =>
+    subst hmap
+    obtain ⟨r, p⟩ := iPopIf_spec b hv hb
+    simp only [iStep, IV.step, IV.popIf]
+    rw [r]
+    rcases eq_nil_or_snoc L with rfl | ⟨M, z, rfl⟩
+    · simp only [List.length_nil, if_true, List.getLast?_nil]
+      refine ⟨by simp [retMatch], _, p.view, p.cap, (by rw [p.hdr]; exact hth), (by rw [p.hdr]; exact hal), ?_⟩
+      cases b <;> simp
+    · have hne : ¬ (M ++ [z]).length = 0 := by simp
+      simp only [hne, if_false, List.getLast?_concat]
+      cases b with
+      | false =>
+        simp only [Bool.false_eq_true, if_false] at p ⊢
+        exact ⟨by simp [retMatch], _, p.view, p.cap, (by rw [p.hdr]; exact hth), (by rw [p.hdr]; exact hal), rfl⟩
+      | true =>
+        simp only [if_true] at p ⊢
+        rw [IV.pop_spec]
+        refine ⟨by simp [retMatch, HipVerif.Spec.Vec.pop], _, p.view, p.cap, (by rw [p.hdr]; exact hth), (by rw [p.hdr]; exact hal), ?_⟩
+        simp [HipVerif.Spec.Vec.pop]
   case insert i =>
     subst hmap
     obtain ⟨r, p⟩ := iInsert_spec i hv
@@ -268,7 +289,7 @@ theorem iStep_refines {s : St} {L : List Nat} (op : Op) (vop : Vecs.Op Nat)
       exact ⟨by simp [h1, retMatch], _, p.view, p.cap, (by rw [p.hdr]; exact hth), (by rw [p.hdr]; exact hal), rfl⟩
   case extIter h n =>
     subst hmap
-    obtain ⟨r, p⟩ := iExtIter_spec n s L hv hb
+    obtain ⟨r, p⟩ := iExtend_spec n hv hb
     simp only [iStep, liftB, boolRet, IV.step]
     rw [r]
     by_cases hc : L.length + n ≤ s.v.cap
